@@ -11,8 +11,22 @@ import (
 func init() { families["C11"] = runC11 }
 
 type frameJ struct {
-	Len  int `json:"len"`
-	Salt int `json:"salt"`
+	Len   int  `json:"len"`
+	Salt  int  `json:"salt"`
+	FillV *int `json:"fillv"`
+}
+
+// frameBytes builds the frame: the pattern, or a constant byte when fillv >= 0.
+func frameBytes(fr frameJ) ([]byte, int) {
+	b := pat(fr.Len, fr.Salt)
+	fv := -1
+	if fr.FillV != nil && *fr.FillV >= 0 {
+		fv = *fr.FillV
+		for i := range b {
+			b[i] = byte(fv)
+		}
+	}
+	return b, fv
 }
 
 type c11Case struct {
@@ -61,14 +75,14 @@ func runC11(raw json.RawMessage, w *Writer) {
 		p := &codecs.VP8Payloader{EnablePictureID: c.PidOn}
 		codecs.VerifSetVP8PictureID(p, uint16(c.StartID))
 		for k, fr := range c.Frames {
-			frame := pat(fr.Len, fr.Salt)
+			frame, fv := frameBytes(fr)
 			var frags [][]byte
 			r, _ := guard(func() { frags = p.Payload(uint16(c.Mtu), cloneBytes(frame)) })
 			decs := []Ev{}
 			for _, f := range frags {
 				decs = append(decs, vp8Decode(f))
 			}
-			w.Emit(Ev{"ev": "payload", "k": k, "mtu": c.Mtu, "pidon": c.PidOn, "startid": c.StartID, "len": fr.Len, "salt": fr.Salt,
+			w.Emit(Ev{"ev": "payload", "k": k, "mtu": c.Mtu, "pidon": c.PidOn, "startid": c.StartID, "len": fr.Len, "salt": fr.Salt, "fillv": fv,
 				"res": r, "frags": intss(frags), "decoded": decs})
 		}
 	}
